@@ -37,6 +37,9 @@ structure World where
   resync   : List Nat := []
   acked    : List Nat := []               -- entries whose write call returned success
   inflight : List Nat := []               -- peers with replication requests that have not settled
+  revBlind : List Nat := []               -- stores loading a snapshot: the join of the snapshot and the resumed queue race, steps not replayed
+  revSkipped : Nat := 0
+  announced : List (Nat × List Nat) := [] -- per store: the heads `Sync` handed to its replicator
   curDb    : Nat := 0                     -- multi-database scenarios: the database ops apply to
   nDb      : Nat := 1
   dbKinds  : List (Nat × Kind) := []
@@ -236,6 +239,7 @@ def World.onRev (w : World) (toks : List String) : World :=
   let p := peerNum (toks.getD 1 "")
   let kind := toks.getD 2 ""
   let k := w.key p
+  if w.revBlind.contains k then { w with revSkipped := w.revSkipped + 1 } else
   let (w, ctx) := match arg? toks "ctx" with | some c => w.ctxId c | none => (w, 0)
   let r := w.replOf k
   -- at the start of a batch of steps the model's view of the oplog catches up with the store model
@@ -266,6 +270,9 @@ def World.onRev (w : World) (toks : List String) : World :=
 def World.onLoadQ (w : World) (toks : List String) : World :=
   let p := peerNum (toks.getD 1 "")
   let impl := namesToNums (toks.getD 2 "-")
+  let k := w.key p
+  let before := match w.announced.find? (fun (x : Nat × List Nat) => x.1 == k) with | some x => x.2 | none => []
+  let w := { w with announced := (k, before ++ impl.filter (fun h => !before.contains h)) :: w.announced.filter (fun (x : Nat × List Nat) => x.1 != k) }
   if w.nDb != 1 then w else
   match w.opHeads with
   | none => w
@@ -435,7 +442,9 @@ def World.onObs1 (w : World) (toks : List String) : World :=
   -- C19: never regresses; at rest with a complete log progress = max ∈ [maxTime, len]
   let w := if prev.seen && (ist.1 < prev.status.1 || ist.2 < prev.status.2) then
       w.fail "C19" "mono" s!"peer {p}: status went from {prev.status.1}/{prev.status.2} to {ist.1}/{ist.2}" else w
-  let complete := ients.all (fun e => e.next.all (fun h => iv.contains h))
+  -- complete: nothing an entry refers to is missing, and every head handed to the replicator arrived
+  let told := match w.announced.find? (fun (x : Nat × List Nat) => x.1 == w.key p) with | some x => x.2 | none => []
+  let complete := ients.all (fun e => e.next.all (fun h => iv.contains h)) && told.all (fun h => iv.contains h)
   let maxT : Int := ients.foldl (fun m e => max m (e.time : Int)) 0
   let w := if complete && !busy && !(ist.1 == ist.2 && maxT ≤ ist.2 && ist.2 ≤ (ilen : Int)) then
       w.fail "C19" "rest" s!"peer {p}: at rest with a complete log of {ilen} entries (max time {maxT}) status is {ist.1}/{ist.2}" else w
@@ -630,6 +639,16 @@ def World.step (w : World) (line : String) : World :=
     let w := { w with pending := toks.drop 1 }
     let h := toks.getD 1 ""
     let w := if h == "failget" then { w with faulty := true } else if h == "okget" then { w with faulty := false } else w
+    -- a new instance / a new handle has a new replicator: nothing queued, nothing remembered
+    let w := if h == "restartsnap" || h == "reopenstore" || h == "restart" then
+        let p := peerNum (toks.getD 2 "")
+        { w with repls := w.repls.filter (fun (x : Nat × Repl.St) => x.1 % 1000 != p),
+                 announced := w.announced.filter (fun (x : Nat × List Nat) => x.1 % 1000 != p) } else w
+    -- a snapshot is loaded into a brand-new store: empty log, the cached heads kept; the resumed queue
+    -- runs while the snapshot is joined, so its steps are not replayed against a log the trace cannot date
+    let w := if h == "restartsnap" then
+        let p := peerNum (toks.getD 2 "")
+        { w.setStore p (w.store p).reopened with revBlind := w.key p :: w.revBlind } else w
     if h == "usedb" then w.useDb (natOr (toks.getD 2 "") 0)
     else if h == "exchangeall" || h == "exchangeall-done" || h == "restart" then { w with lastOpDb := none }   -- touches every database of the peer
     else if ["put", "del", "add", "docput", "docdel", "docputall", "docputbatch", "sync", "pubdeliver", "exchange", "inject", "syncasync"].contains h then
